@@ -1,7 +1,7 @@
 (** * C06 -- the N-Triples reader yields exactly the triples of the document *)
 From Coq Require Import List Ascii String ZArith Bool.
 From Shexer Require Import Lib.PyStr Gen.Consts Model.NtReader Spec.NtSyntax Spec.NtDom Spec.NtDomCur
-  Proofs.NtProofs Proofs.NtProofsFx Proofs.NtTotal.
+  Proofs.NtProofs Proofs.NtProofsFx Proofs.NtTotal Proofs.NtDocs.
 Import ListNotations.
 
 (** The reader has several texts: the tokeniser of the tree as it was, the tokeniser after the
@@ -9,7 +9,9 @@ Import ListNotations.
     ([Gen.Consts.nt_fixed_tok]), the typing repair C06-literal-type-from-suffix.diff
     ([nt_fixed_dlt]), and the two edits of C06-comment-glued-to-dot.diff (finding C06-F7r):
     a token also ends at '#' ([nt_tok_end_at_hash]) and a '<' that is never closed reaches the end
-    of the line instead of looping for ever ([nt_uri_unclosed_to_eol]).  The flags are regenerated
+    of the line instead of looping for ever ([nt_uri_unclosed_to_eol]); and, independently of all
+    that, the document loop that skips blank lines and comment lines
+    (C06-comments-and-blank-lines.diff, finding C06-F9, [nt_skips_comment_lines]).  The flags are regenerated
     from /repo on every run; [read_raw_string_cur], [C06_dom_cur], [root_causes_cur] follow them.
     Every model and every domain theorem stays checked whatever the flags say.
 
@@ -89,18 +91,18 @@ Print Assumptions C06_terminates.
 Theorem C06_fully_repaired_reader : forall allow t l,
   valid_triple t = true -> valid_layout l = true ->
   kinded_result (read_raw_string_fx3 allow (nt_line t l)) = Some ([kinded t], 0%nat).
-Proof. exact (line_full_g2 true). Qed.
+Proof. exact line_fx3. Qed.
 Print Assumptions C06_fully_repaired_reader.
 
 Theorem C06_document_fully_repaired_reader : forall allow (ts : list (striple * layout)),
   Forall (fun x => valid_triple (fst x) = true /\ valid_layout (snd x) = true) ts ->
   kinded_result (read_raw_string_fx3 allow (nt_doc ts)) = Some (map (fun x => kinded (fst x)) ts, 0%nat).
-Proof. exact (document_full_g2 true). Qed.
+Proof. exact document_fx3. Qed.
 Print Assumptions C06_document_fully_repaired_reader.
 
 Theorem C06_terminates_fully_repaired_reader : forall allow doc ys e,
   read_raw_string_fx3 allow doc <> DocHang ys e /\ read_file_fx3 allow doc <> DocHang ys e.
-Proof. intros allow doc ys e. split; [apply (read_raw_string_g2_total true) | apply (read_file_g2_total true)]. Qed.
+Proof. intros allow doc ys e. apply (terminates_g3 true true). Qed.
 Print Assumptions C06_terminates_fully_repaired_reader.
 
 (** each switch does its own part: [hs] alone gives the full statement on valid lines, [el] alone
@@ -148,6 +150,48 @@ Theorem C06_repairs_enlarge_domain : forall t l,
   (forall hs, C06_dom_fx2 t l = true -> C06_dom_fx3 hs t l = true) /\ C06_dom_fx3 true t l = true.
 Proof. intros t l. split; [apply dom_grows | split; [apply dom_grows2 | split; [intros hs; apply dom_grows3 | apply dom_fx3_total]]]. Qed.
 Print Assumptions C06_repairs_enlarge_domain.
+
+(** ** Documents with comment lines and blank lines ([Spec.NtSyntax.dline]: a line is a statement,
+    a comment line -- optional blanks, '#', anything -- or a blank line; the document means the
+    list of its statements).  Partial: the statement lines in [C06_dom_cur]; comment lines only
+    when the reader skips them ([nt_skips_comment_lines]; otherwise root cause F9); over a FILE
+    blank lines too (the raw-string line reader drops them itself). *)
+Theorem C06_document_lines_partial : forall allow ds,
+  Forall (fun d => valid_dline d = true /\ dline_dom_cur d = true) ds ->
+  kinded_result (read_raw_string_cur allow (nt_document ds)) = Some (doc_kinded ds, 0%nat).
+Proof. exact document_lines_partial_cur. Qed.
+Print Assumptions C06_document_lines_partial.
+
+Theorem C06_document_lines_file_partial : forall allow ds,
+  Forall (fun d => valid_dline d = true /\ dline_dom_file_cur d = true) ds ->
+  kinded_result (read_file_cur allow (nt_document ds)) = Some (doc_kinded ds, 0%nat).
+Proof. exact document_lines_file_partial_cur. Qed.
+Print Assumptions C06_document_lines_file_partial.
+
+(** the full property for documents, once every repair is in /repo: EVERY valid document --
+    statements in any valid layout, comment lines, blank lines, a final line end or none -- read
+    from a raw string or from a file: exactly the statements' triples, in order, zero error lines *)
+Theorem C06_document_lines :
+  nt_fixed_tok = true -> nt_fixed_dlt = true -> nt_tok_end_at_hash = true -> nt_skips_comment_lines = true ->
+  forall allow ds, Forall (fun d => valid_dline d = true) ds ->
+  kinded_result (read_raw_string_cur allow (nt_document ds)) = Some (doc_kinded ds, 0%nat) /\
+  kinded_result (read_file_cur allow (nt_document ds)) = Some (doc_kinded ds, 0%nat).
+Proof. exact document_lines_full_cur. Qed.
+Print Assumptions C06_document_lines.
+
+Theorem C06_document_lines_fully_repaired_reader : forall allow ds,
+  Forall (fun d => valid_dline d = true) ds ->
+  kinded_result (read_raw_string_fx3 allow (nt_document ds)) = Some (doc_kinded ds, 0%nat) /\
+  kinded_result (read_file_fx3 allow (nt_document ds)) = Some (doc_kinded ds, 0%nat).
+Proof. exact document_lines_fx3. Qed.
+Print Assumptions C06_document_lines_fully_repaired_reader.
+
+(** documents of statements read from a file (before: raw string only) *)
+Theorem C06_document_file_partial : forall allow (ts : list (striple * layout)),
+  Forall (fun x => valid_triple (fst x) = true /\ valid_layout (snd x) = true /\ C06_dom_cur (fst x) (snd x) = true) ts ->
+  kinded_result (read_file_cur allow (nt_doc ts)) = Some (map (fun x => kinded (fst x)) ts, 0%nat).
+Proof. exact document_file_partial_cur. Qed.
+Print Assumptions C06_document_file_partial.
 
 (** ** non-vacuity *)
 Definition ex_s : snode := NIri (Str "http://e/s#a@b_c:d").
@@ -336,11 +380,16 @@ Lemma C06_full_refuted :
   ~ (forall t l, valid_triple t = true -> valid_layout l = true ->
      kinded_result (read_raw_string_cur false (nt_line t l)) = Some ([kinded t], 0%nat)).
 Proof.
-  intros F H. unfold read_raw_string_cur in H. destruct nt_fixed_tok; [destruct nt_fixed_dlt|].
-  - cbn [andb] in F. rewrite F in H.
-    destruct (C06_F7_refuted_all_repairs nt_uri_unclosed_to_eol) as (t & l & _ & V & VL & N). apply N. apply H; assumption.
-  - destruct C06_F3_refuted_repaired_tokeniser as (t & l & _ & V & VL & N). apply N. apply H; assumption.
-  - destruct C06_F1_refuted as (t & l & _ & V & VL & N). apply N. apply H; assumption.
+  intros F H.
+  (* the witnesses of F7r, F3 (repaired tokeniser) and F1 (tokeniser as it was) *)
+  pose proof (H (STriple ex_s ex_p (ONode (NBn (Str "b2")))) (lay " " " " "" (Some (""%string, "c"%string))) eq_refl eq_refl) as H7.
+  pose proof (H (plain (ic "^^")) (lay " " " " " " None) eq_refl eq_refl) as H3.
+  pose proof (H (plain [IEsc bs; IEsc dq]) (lay " " " " "" None) eq_refl eq_refl) as H1.
+  clear H. unfold read_raw_string_cur, process_line_cur in *.
+  destruct nt_fixed_tok; [destruct nt_fixed_dlt|].
+  - cbn [andb] in F. rewrite F in H7. destruct nt_uri_unclosed_to_eol, nt_skips_comment_lines; vm_compute in H7; discriminate H7.
+  - destruct nt_skips_comment_lines; vm_compute in H3; discriminate H3.
+  - destruct nt_skips_comment_lines; vm_compute in H1; discriminate H1.
 Qed.
 
 (** ... and as long as a '<' without '>' does not reach the end of the line, some text makes the
@@ -353,7 +402,45 @@ Lemma C06_terminates_refuted :
    exists t l ys e, valid_triple t = true /\ valid_layout l = true /\
                     read_raw_string_cur false (nt_line t l) = DocHang ys e).
 Proof.
-  intros E1 E2 E3. unfold read_raw_string_cur. rewrite E1, E2, E3. split.
-  - exists (Str "<x"), [], 0%nat. destruct nt_tok_end_at_hash; vm_compute; reflexivity.
+  intros E1 E2 E3. unfold read_raw_string_cur, process_line_cur. rewrite E1, E2, E3. split.
+  - exists (Str "<x"), [], 0%nat. destruct nt_tok_end_at_hash, nt_skips_comment_lines; vm_compute; reflexivity.
   - intros ->. exists hang_t, hang_l, [], 0%nat. repeat split; vm_compute; reflexivity.
+Qed.
+
+(** ** F9: comment lines and blank lines.  The document
+      [# <http://e/b> <http://e/commented> "B" .]
+      [<http://a/s> <http://a/p> <http://a/o> .]
+      [# just a comment]
+      (blank line, final line end)
+    states ONE triple.  A reader that tokenises every line yields the commented-out statement as
+    well and counts the other comment line as an error line (over a file: the blank line too). *)
+Definition f9_doc : list dline :=
+  [DComment [] (Str " <http://e/b> <http://e/commented> ""B"" .");
+   DStmt (STriple (NIri (Str "http://a/s")) (Str "http://a/p") (ONode (NIri (Str "http://a/o")))) (lay " " " " " " None);
+   DComment [] (Str " just a comment"); DBlank []; DBlank []].
+
+Lemma C06_F9_refuted :
+  Forall (fun d => valid_dline d = true) f9_doc /\ existsb rc_F9 f9_doc = true /\
+  doc_kinded f9_doc = [(KIri (Str "http://a/s"), Str "http://a/p", KIri (Str "http://a/o"))] /\
+  (* every other repair in, the lines not skipped: a spurious triple, one error line; two over a file *)
+  kinded_result (read_raw_string_g3 false true true false (nt_document f9_doc))
+  = Some ((KIri (Str "http://e/b"), Str "http://e/commented", KLit xsd_string) :: doc_kinded f9_doc, 1%nat) /\
+  kinded_result (read_file_g3 false true true false (nt_document f9_doc))
+  = Some ((KIri (Str "http://e/b"), Str "http://e/commented", KLit xsd_string) :: doc_kinded f9_doc, 2%nat) /\
+  (* with the lines skipped: read right *)
+  kinded_result (read_raw_string_fx3 false (nt_document f9_doc)) = Some (doc_kinded f9_doc, 0%nat) /\
+  kinded_result (read_file_fx3 false (nt_document f9_doc)) = Some (doc_kinded f9_doc, 0%nat).
+Proof. repeat split; try (vm_compute; reflexivity). repeat constructor. Qed.
+
+(** hence, as long as the reader does not skip them, the statement for documents with comment
+    lines is false whichever of the other texts /repo has *)
+Lemma C06_document_lines_refuted :
+  nt_skips_comment_lines = false ->
+  ~ (forall ds, Forall (fun d => valid_dline d = true) ds ->
+     kinded_result (read_raw_string_cur false (nt_document ds)) = Some (doc_kinded ds, 0%nat)).
+Proof.
+  intros E H. specialize (H f9_doc (proj1 C06_F9_refuted)).
+  unfold read_raw_string_cur, process_line_cur in H. rewrite E in H.
+  destruct nt_fixed_tok; [destruct nt_fixed_dlt; [destruct nt_tok_end_at_hash, nt_uri_unclosed_to_eol|]|];
+    vm_compute in H; discriminate H.
 Qed.
